@@ -129,6 +129,13 @@ var c09Catalogue = []violation{
 		m.Types = append(m.Types[:pos], append([]Type{dup}, m.Types[pos:]...)...)
 		return true
 	}},
+	{"no-header-nothing-else", func(rng *rand.Rand, m *Model) bool {
+		// neither header, at its degenerate site: a document that declares nothing at all (empty, blank lines,
+		// comments only) - the only error there is to report stands at the very first position
+		m.Types, m.Conds = nil, nil
+		m.RawHeader = []string{" ", "\n", "\n\n  \n", "# only a comment", "  # a comment\n\n# another", "\t", "\r\n"}[rng.Intn(7)]
+		return true
+	}},
 	{"bad-headers", func(rng *rand.Rand, m *Model) bool {
 		m.RawHeader = []string{"model\n  schema 1.1\nmodule core", "module core\nmodel\n  schema 1.1", "type first", "model", "schema 1.1",
 			"model\n  schema 1.1\nmodel\n  schema 1.1", "module a\nmodule b", "model\n  schema", "module", "model schema 1.1"}[rng.Intn(10)]
@@ -148,7 +155,7 @@ var c09Catalogue = []violation{
 
 func init() {
 	props["C09"] = func(c *Ctx) {
-		c.R.Rule = "valid generated models (model files and module files) x one injected structural violation from an 11-kind catalogue x random injection site " +
+		c.R.Rule = "valid generated models (model files and module files) x one injected structural violation from an 12-kind catalogue x random injection site " +
 			"(type, relation, operand position, nesting depth 0-3) x random layout; oracle on the real parser: non-nil error and nil model from TransformDSLToProto and " +
 			"TransformModularDSLToProto; correspondence: real parser vs Lean clean+walk (listener-raised errors with positions). non-trivial = distinct rejected text per kind"
 		rng := rand.New(rand.NewSource(c.Seed))
